@@ -408,8 +408,11 @@ func (m *urlModule) createURLPrototype() *goja.Object {
 		}
 		s = strings.ToLower(s)
 		if isSpecialProtocol(u.url.Scheme) == isSpecialProtocol(s) {
-			if _, err := url.ParseRequestURI(s + "://" + u.url.Host); err == nil {
+			// a scheme that requires a host is only taken if the present host is valid for it (file: may have none)
+			if _, err := url.ParseRequestURI(s + "://" + u.url.Host); err == nil &&
+				(!isSpecialNetProtocol(s) || (u.url.Opaque == "" && validHost(s, u.url.Host))) {
 				u.url.Scheme = s
+				m.fixURL(u.url)
 				dropDefaultPort(u.url)
 			}
 		}
